@@ -229,6 +229,12 @@ func WorkerMain(t *testing.T, props map[string]*Prop) {
 		t0 := time.Now()
 		oc := pr.Engine(t, r.Program, simrt.NewReplay(r.Trace), verbose)
 		same := len(oc.Viol) > 0 && oc.Viol[0].Sig == r.Violation.Sig && oc.Hash == r.Hash
+		if verbose {
+			// a verbose run writes more lines into the event log (server log, protocol trace), which
+			// enter its hash: exactness is judged on a second, quiet execution of the same replay
+			q := pr.Engine(t, r.Program, simrt.NewReplay(r.Trace), false)
+			same = len(q.Viol) > 0 && q.Viol[0].Sig == r.Violation.Sig && q.Hash == r.Hash
+		}
 		emit(&RunLine{Prop: id, Index: r.Index, Seed: r.Seed, Outcome: oc, Replay: rp, WallMs: ms(t0), Replayed: &same, Brief: r.Program.Brief()})
 		if verbose {
 			for _, l := range oc.Log {
